@@ -5,8 +5,9 @@ G  harness/gen/gen_c01.py: `Element.__hash__` field list, `Bond.__hash__`, the l
 P  Props/C01.lean: renumbering/insertion-order equivariance of the refinement step, of the whole `_morgan` loop, of the
    final dense ranks and of `atoms_order`, for EVERY hash function; eq/hash are eq/hash of the canonical string.
 K  exact equality, real chython vs the Lean model (driver drv_c01): `Morgan.atoms_order` (ranks AND dict order),
-   `_chiral_morgan` (label-free molecules and molecules with tetrahedral labels incl. the R/S-pair differentiation and its
-   KeyError branch; labelled double bonds / allenes / the set-order ring-group branch are answered `notmodelled`),
+   `_chiral_morgan` (op `cfull`: tetrahedral, cis/trans AND allene labels incl. the R/S-pair differentiation of all three
+   blocks and the KeyError branches; only the set-order branches are answered `notmodelled`; op `cmorgan`: the older
+   tetrahedral-only model, proved to be extended by the full one), `MoleculeStereo.cumulenes` (op `cumul`),
    `_morgan` on arbitrary int weights (negative, tied, missing keys), `hash(atom)` and `hash(tuple)` as CPython ints.
 R  relational (real code on both sides), inside the claimed domain (independent symmetry oracle filters the two recorded
    gaps): `str(mol)`, `mol == other`, `hash(mol)` across renumberings/insertion orders, across re-reads of the library's
@@ -20,17 +21,17 @@ from ..core import run_driver
 from ..gen import gen_c01
 
 LEVEL = 'translation_validation'
-LEVEL_TEXT = ('The refinement that produces the canonical atom classes (`_morgan`, `atoms_order`, the atom/bond invariants, `_chiral_morgan` for tetrahedral labels) is an '
+LEVEL_TEXT = ('The refinement that produces the canonical atom classes (`_morgan`, `atoms_order`, the atom/bond invariants, `_chiral_morgan` with tetrahedral, cis/trans and allene labels incl. `cumulenes`/`stereogenic_cumulenes`) is an '
               'executable Lean model tied to the source by regenerated tables and exact integer correspondence, and its '
               'independence of atom numbering and of dict insertion order is proved for all graphs and every hash function. '
-              'For stereo labels on pairwise inequivalent centres the stereo-aware weights are proved equal to atoms_order. '
-              'The string writer and the remaining stereo-aware refinement are heuristic code with two recorded gaps, so the '
+              'For stereo labels (of any kind) on pairwise inequivalent elements the stereo-aware weights are proved equal to atoms_order, hence fully invariant; the whole stereo-aware refinement is proved independent of the atom numbers. '
+              'The string writer and the set-order branches of the stereo-aware refinement are heuristic code with two recorded gaps, so the '
               'unconditional invariance of the string is false and is not a theorem; that part is decided run by run by '
               'comparing the real code\'s canonical strings, equality and hashes across renumberings and across two '
               'independent writers\' spellings, inside the claimed domain (independent symmetry oracle).')
 LEVEL_NOTE = ('Lean kernel; hand transcription Model/Morgan.lean validated by exact correspondence (not derived from the Python '
               'text); Py/Hash.lean model of CPython tuple/int hash validated on every value compared; the writer `_smiles` and '
-              'the double-bond / allene / ring-group parts of `_chiral_morgan` are outside the Lean model (relational validation only); RDKit is used as an independent '
+              'the set-iteration-order branches of `_chiral_morgan` (ring groups; test on group[0] not uniform over a group) are outside the Lean model (relational validation only); RDKit is used as an independent '
               'spelling source and symmetry oracle only.')
 TECHNIQUE = 'Lean 4 equivariance theorems over an executable Morgan model + exact correspondence + relational validation of canonical strings'
 HAS_DRIVER = True
@@ -41,8 +42,8 @@ RULE = ('K case = (entry point, molecule in one concrete numbering and dict inse
         'also under random renumberings with shuffled atom/bond insertion order. Non-trivial = at least 2 atoms (so that the '
         'refinement loop runs) or an error branch; distinct by (op, wire form). R case = (molecule, second description of the '
         'same structure); non-trivial = the second description differs from the first in numbering, order or spelling.')
-TRUSTED = ['hand transcriptions Model/Morgan.lean, Model/ChiralMorgan.lean (validated by this correspondence)',
-           'Model/Stereo.lean translateTetra (C12) and Gen/PeriodicTable.lean is_forming_single_bonds flags (C18) used by the stereo-aware model',
+TRUSTED = ['hand transcriptions Model/Morgan.lean, Model/ChiralMorgan.lean, Model/C01Chiral.lean (validated by this correspondence)',
+           'Model/Stereo.lean translateTetra / translateCisTrans / translateAllene (C12) and Gen/PeriodicTable.lean is_forming_single_bonds / is_forming_double_bonds flags (C18) used by the stereo-aware model',
            'Py/Hash.lean model of CPython 3.12 int/tuple hash (validated on every hash compared)',
            'gen_c01 translator (AST patterns of Element.__hash__, Bond.__hash__, _morgan constants, Smiles.__eq__/__hash__)',
            'domain filter: RDKit CanonicalRankAtoms(breakTies=False) + brute-force automorphisms (only to discard the two recorded gaps)']
